@@ -267,7 +267,10 @@ class EulerSolver(AdaptiveSolverBase):
                     else:
                         # everything worked => do the step
                         steps += 1
-                        t += dt_step
+                        # land exactly on t_end when the step was clipped to the remaining interval
+                        # (t + (t_end - t) may round to the float below t_end, which costs an extra
+                        # step of dt_min that ends beyond t_end)
+                        t = t_end if dt_step == t_end - t else t + dt_step
                         state_cur, self.info["post_step_data"] = post_step_hook(
                             step_small, t, self.info["post_step_data"]
                         )
